@@ -55,7 +55,7 @@ def impl_history(case):
                 try:
                     if name == "run":
                         r = c.run(simulation_time=2.0, step_size=0.5, solver="euler", outputs={f"v{j}": p for j, p in enumerate(sp)}, vectorize=bool(h[1]),
-                                  float_precision="float64", verbose=False, in_place=False, clear=True)
+                                  float_precision="float64", verbose=False, in_place=False, clear=(len(h) < 3 or bool(h[2])))
                         cur = [[C.f2s(x) for x in row] for row in r.values]
                         if h[1] is False or h[1] == 0:
                             if first_run is None:
@@ -193,7 +193,8 @@ def impl_history(case):
                 out["dy"] = res
                 out["layout"] = {p: idx for p, idx in smap.items()}
                 out["args"] = {nm: [C.f2s(x) for x in np.asarray(args[i]).reshape(-1)] for i, nm in enumerate(names) if i >= 3}
-                out["y0"] = {}
+                y0 = np.array(args[1], dtype=float)
+                out["y0"] = {p: C.f2s(y0[idx]) for p, idx in smap.items()}       # the declared initial state, whatever was simulated on copies before
                 out["n"] = int(n)
             except Exception as e:
                 out["final_error"] = {"error": type(e).__name__, "msg": str(e)[:300]}
@@ -232,7 +233,7 @@ def gen_case(rng, tier):
         hist = []
         for _k in range(rng.randint(1, 5)):
             name = rng.choice(OPS[:-1])
-            hist.append([name, rng.randint(0, 5) if name not in ("run",) else rng.choice([False, False, True])])
+            hist.append([name, rng.randint(0, 5) if name not in ("run",) else rng.choice([False, False, True])] + ([rng.random() < 0.6] if name == "run" else []))     # run: [vectorize, clear]
         pts = [{p: C.q2s(F(rng.randint(-3, 3), rng.choice([1, 2]))) for p in sp} for _ in range(2)]
         case = {"mdl": mdl, "history": hist, "points": pts, "pis": [{}, {}], "interp": {}}
         o = N.oracle_case(case)
@@ -297,7 +298,7 @@ def check(tier, seed, replay=None):
         if "final_error" in im:
             probs.append(("operation-raised", dict(im["final_error"], op=len(case["history"]), name="final")))
         elif im.get("dy") is not None:
-            dev = [d for d in c01.compare(case, dict(im, y0={}), orc) if d[0] in ("dy", "layout-missing", "layout-not-bijective", "arg-value")]
+            dev = [d for d in c01.compare(case, im, orc) if d[0] in ("dy", "layout-missing", "layout-not-bijective", "arg-value", "initial-value")]
             for d in dev:
                 probs.append(("vector-field-changed", {"deviation": d}))
         unexplained = []
